@@ -46,8 +46,10 @@ def opDefsLoad (st : State) (j : Json) : Except String (State × Json) := do
   match loadDefs fuel alias ext ents defs ifaces with
   | .error e => pure (st, errJson e)
   | .ok d =>
+    -- NoZeroWidth, evaluated on every client property of every entity
+    let zero := d.entities.flatMap fun e => (e.props.filter fun p => !p.ty.elemsNonEmpty).map fun p => e.name ++ "." ++ p.name
     let brief := (j.getObjValAs? Bool "brief").toOption.getD false
-    let out := if brief then Json.mkObj [("ok", d.entities.length)]
+    let out := if brief then Json.mkObj [("ok", d.entities.length), ("zeroWidth", toJson zero)]
       else Json.mkObj [("ok", Json.arr (d.entities.map fun e => viewToJson (e.view masks)).toArray)]
     pure ({ st with defs := st.defs.insert id d, masks := masks }, out)
 
@@ -268,6 +270,28 @@ def opPackShipped (j : Json) : Except String Json := do
   let miss := files.filter fun f => neededFile root script f && !shippedFile files pkgs cfg f
   pure (Json.mkObj [("packages", toJson pkgs), ("shipped", toJson sh), ("missing", toJson miss)])
 
+def opJsonEncodable (j : Json) : Except String Json := do
+  let t ← pyTermOfJson (← j.getObjVal? "term")
+  pure (Json.mkObj [("encodable", encodable t), ("keysOK", keysOK t)])
+
+def opPickleEvents (j : Json) : Except String Json := do
+  let bs ← getHex j "bytes"
+  let allow : Option (List (Bytes × Bytes)) ←
+    match j.getObjVal? "allow" with
+    | .ok a =>
+      if a.isNull then pure none else do
+        let xs ← (← a.getArr?).toList.mapM fun e => do
+          let q ← e.getArr?
+          pure (((← (q[0]?.getD Json.null).getStr?).toUTF8.toList), ((← (q[1]?.getD Json.null).getStr?).toUTF8.toList))
+        pure (some xs)
+    | .error _ => pure none
+  let r := pickleRun allow (bs.length + 2) bs {}
+  let evJson (es : List (Bytes × Bytes)) : Json := Json.arr (es.map fun (m, n) => Json.arr #[toHex m, toHex n]).toArray
+  pure (match r with
+    | .stop es => Json.mkObj [("end", "stop"), ("events", evJson es)]
+    | .refused es m n => Json.mkObj [("end", "refused"), ("events", evJson es), ("refused", Json.arr #[toHex m, toHex n])]
+    | .error es => Json.mkObj [("end", "error"), ("events", evJson es)])
+
 def opCodecDecode (st : State) (j : Json) : Except String Json := do
   let t ← getTy st j
   let h ← getNat j "h"
@@ -359,6 +383,8 @@ def dispatch (st : State) (op : String) (j : Json) : Except String (State × Jso
   | "sig.bind" => pureOp st (opSigBind j)
   | "controller.summary" => pureOp st (opControllerSummary j)
   | "pack.shipped" => pureOp st (opPackShipped j)
+  | "json.encodable" => pureOp st (opJsonEncodable j)
+  | "pickle.events" => pureOp st (opPickleEvents j)
   | "codec.decode" => pureOp st (opCodecDecode st j)
   | "codec.decodeSeq" => pureOp st (opCodecDecodeSeq st j)
   | "codec.encode" => pureOp st (opCodecEncode st j)
